@@ -46,13 +46,15 @@ def explore(ctx):
         suite = "ps" if i % 2 else "bbs"
         claims = [{"t": "r", "s": f"id-{i}"}, CC.claim(rng, "h"), CC.claim(rng, "n"), CC.claim(rng, "s", SPECIAL[i % len(SPECIAL)]),
                   CC.claim(rng, "n", [255, -1, 0, 2**63 - 1, -2**63, 65535][i % 6]), CC.claim(rng, "e")]
+        if i % 4 == 0:
+            claims[1] = CC.claim(rng, "h", "")          # an empty value: the shortest symmetric payload
         stmts = [{"k": "sig", "id": "s0", "cred": 0, "disclosed": []}]
         for j in range(len(claims)):
             if (i + j) % 3 == 0:
                 stmts.append({"k": "venc", "id": f"v{j}", "ref": "s0", "claim": j, "dec": True, "gen": "std" if (i + j) % 2 else "hash"})
             elif (i + j) % 3 == 1:
                 stmts.append({"k": "venc", "id": f"v{j}", "ref": "s0", "claim": j, "dec": False, "gen": "hash" if (i + j) % 2 else "std"})
-        stmts.append({"k": "vdec", "id": "d0", "ref": "s0", "claim": 1 + (i % 5), "gen": "std" if i % 4 else "hash"})
+        stmts.append({"k": "vdec", "id": "d0", "ref": "s0", "claim": 1 if i % 4 == 0 else 1 + (i % 5), "gen": "std" if i % 8 else "hash"})
         cs.append({"op": "f_create", "suite": suite, "seed": i, "nonce": "aa", "creds": [{"claims": claims}], "stmts": stmts, "action": {"k": "decrypt"}})
     if ctx.get("replay"):
         rp = json.load(open(ctx["replay"]))
